@@ -25,6 +25,10 @@ BitHas(s, b) == (s \div b) % 2 = 1
 BitClr(s, b) == IF BitHas(s, b) THEN s - b ELSE s
 BitSet(s, b) == IF BitHas(s, b) THEN s ELSE s + b
 
+\* a set as a sequence (order unspecified); linear, unlike CHOOSE over [1..n -> S]
+RECURSIVE SetToSeq(_)
+SetToSeq(S) == IF S = {} THEN <<>> ELSE LET x == CHOOSE y \in S : TRUE IN <<x>> \o SetToSeq(S \ {x})
+
 RECURSIVE SumSeq(_)
 SumSeq(s) == IF s = <<>> THEN 0 ELSE Head(s) + SumSeq(Tail(s))
 
